@@ -1633,3 +1633,119 @@ def gen_rates():
     ok, log = compile_gen('Rates.v')
     return ('rates: Jumps.rates (parts from split, part duration, per-pair mean and sample deviation over atoms x part duration) regenerated; proved: '
             'rate x atoms x total time = jumps counted in the parts (<= jumps of the whole)', ok, 'ok' if ok else log[-600:])
+
+
+# ---------------------------------------------------------------- unit: GEMDAT's overrides around pymatgen's trajectory (C01, C15)
+def _stmts(f):
+    return [s for s in f.body if not (isinstance(s, ast.Expr) and isinstance(s.value, ast.Constant))]
+
+
+def traj_core_unit():
+    """returns (modulus, compared value, replacement) of Trajectory.to_positions after checking the statements around it"""
+    tree = _parse('trajectory.py')
+    cls = next((n for n in tree.body if isinstance(n, ast.ClassDef) and n.name == 'Trajectory'), None)
+    if cls is None or [ast.unparse(b) for b in cls.bases] != ['PymatgenTrajectory']:
+        raise Unsupported('class Trajectory(PymatgenTrajectory)')
+    imp = [ast.unparse(s) for s in tree.body if isinstance(s, ast.ImportFrom) and s.module == 'pymatgen.core.trajectory']
+    if imp != ['from pymatgen.core.trajectory import Trajectory as PymatgenTrajectory']:
+        raise Unsupported('import of the pymatgen base class: %s' % imp)
+    # methods of the library that Model.C15 / Model.C01 describe must not be overridden
+    own = {f.name for f in cls.body if isinstance(f, ast.FunctionDef)}
+    for name in ('to_displacements', 'extend', '__len__', '__iter__', 'get_structure', '_combine_lattice', '_combine_site_props', '__setattr__', '__getattribute__'):
+        if name in own:
+            raise Unsupported(f'Trajectory overrides the library method {name}')
+    f = _find_func(tree, 'Trajectory', 'to_positions')
+    st = _stmts(f)
+    src = [ast.unparse(s) for s in st]
+    if len(st) != 4 or src[0] != 'super().to_positions()' or src[3] != 'self.coords = coords':
+        raise Unsupported('to_positions: ' + ' | '.join(src)[:200])
+    a = st[1]
+    if not (isinstance(a, ast.Assign) and ast.unparse(a.targets[0]) == 'coords' and isinstance(a.value, ast.Call) and ast.unparse(a.value.func) == 'np.mod'
+            and len(a.value.args) == 2 and not a.value.keywords and ast.unparse(a.value.args[0]) == 'self.coords' and isinstance(a.value.args[1], ast.Constant)
+            and type(a.value.args[1].value) is int):
+        raise Unsupported('to_positions statement 1: ' + src[1])
+    modulus = a.value.args[1].value
+    b = st[2]
+    if not (isinstance(b, ast.Assign) and isinstance(b.targets[0], ast.Subscript) and ast.unparse(b.targets[0].value) == 'coords' and isinstance(b.targets[0].slice, ast.Compare)
+            and ast.unparse(b.targets[0].slice.left) == 'coords' and len(b.targets[0].slice.ops) == 1 and isinstance(b.targets[0].slice.ops[0], ast.Eq)
+            and isinstance(b.targets[0].slice.comparators[0], ast.Constant) and type(b.targets[0].slice.comparators[0].value) is int
+            and isinstance(b.value, ast.Constant) and type(b.value.value) is int):
+        raise Unsupported('to_positions statement 2: ' + src[2])
+    cmpv, repl = b.targets[0].slice.comparators[0].value, b.value.value
+    for prop, call in (('positions', 'self.to_positions()'), ('displacements', 'self.to_displacements()')):
+        g = _find_func(tree, 'Trajectory', prop)
+        if [ast.unparse(d) for d in g.decorator_list] != ['property'] or [ast.unparse(s) for s in _stmts(g)] != [call, 'return self.coords']:
+            raise Unsupported(f'property {prop}')
+    g = _find_func(tree, 'Trajectory', 'cumulative_displacements')
+    if [ast.unparse(d) for d in g.decorator_list] != ['property'] or [ast.unparse(s) for s in _stmts(g)] != ['return np.cumsum(self.displacements, axis=0)']:
+        raise Unsupported('property cumulative_displacements')
+    gi = [ast.unparse(s) for s in _stmts(_find_func(tree, 'Trajectory', '__getitem__'))]
+    if gi != ['new = super().__getitem__(frames)', 'if isinstance(new, PymatgenTrajectory):\n    new.__class__ = self.__class__',
+              "new.metadata = self.metadata if hasattr(self, 'metadata') else {}", 'return new']:
+        raise Unsupported('__getitem__: ' + ' | '.join(gi)[:200])
+    ini = [ast.unparse(s) for s in _stmts(_find_func(tree, 'Trajectory', '__init__'))]
+    if ini != ['super().__init__(**kwargs)', 'self.metadata = metadata if metadata else {}']:
+        raise Unsupported('__init__: ' + ' | '.join(ini)[:200])
+    fl = ast.unparse(_find_func(tree, 'Trajectory', 'filter'))
+    for need in ('new_coords = self.positions[:, idx]', 'coords=new_coords', 'lattice=self.get_lattice()', 'species=new_species', 'time_step=self.time_step', 'metadata=self.metadata'):
+        if need not in fl:
+            raise Unsupported('filter: missing `%s`' % need)
+    if 'coords_are_displacement' in fl or 'base_positions' in fl:
+        raise Unsupported('filter builds the new object from something else than positions')
+    cm = [ast.unparse(s) for s in _stmts(_find_func(tree, 'Trajectory', 'center_of_mass'))]
+    want = ['weights = []', None, 'positions_no_pbc = self.base_positions + self.cumulative_displacements',
+            'center_of_mass = np.average(positions_no_pbc, axis=1, weights=weights).reshape(-1, 1, 3)', None]
+    if len(cm) != len(want) or any(w is not None and w != c for w, c in zip(want, cm)) or 'weights.append(s.atomic_mass)' not in cm[1] \
+            or not cm[1].startswith('for s in self.species:'):
+        raise Unsupported('center_of_mass: ' + ' | '.join(cm)[:300])
+    for need in ("species=['X']", 'coords=center_of_mass', 'lattice=self.get_lattice()', 'metadata=self.metadata', 'time_step=self.time_step'):
+        if need not in cm[4]:
+            raise Unsupported('center_of_mass: missing `%s`' % need)
+    return modulus, cmpv, repl
+
+
+def gen_traj_core():
+    os.makedirs(GEN, exist_ok=True)
+    try:
+        modulus, cmpv, repl = traj_core_unit()
+    except Unsupported as e:
+        return ('trajcore', False, f'translator: unsupported {e}')
+    lines = ['(* GENERATED from /repo/src/gemdat/trajectory.py (Trajectory.to_positions and the properties around it) on every run -- do not edit *)',
+             'From GV Require Import Base.Prelude Model.C01 Model.C15.',
+             'Section G.',
+             '  Variable D : Z.',
+             '  (* coords = np.mod(self.coords, m); coords[coords == c] = r   (a coordinate is a numerator over D) *)',
+             f'  Definition gen_fix (x : Z) : Z := let y := x mod ({modulus} * D) in if y =? {cmpv} * D then {repl} * D else y.',
+             '  (* pymatgen Trajectory.to_positions (library code, modelled): base + running sum when the object holds displacements *)',
+             '  Definition pmg_to_positions (t : traj) : traj :=',
+             '    match t_mode t with',
+             '    | MPos => t',
+             '    | MDisp => {| t_mode := MPos; t_coords := map (vadd (t_base t)) (fcumsum (vzero (t_base t)) (t_coords t)); t_base := t_base t |}',
+             '    end.',
+             '  (* super().to_positions(); coords = fix(self.coords); self.coords = coords *)',
+             '  Definition gen_to_positions (t : traj) : traj :=',
+             '    let t1 := pmg_to_positions t in {| t_mode := t_mode t1; t_coords := map (map gen_fix) (t_coords t1); t_base := t_base t1 |}.',
+             '  (* positions: self.to_positions(); return self.coords *)',
+             '  Definition gen_positions (t : traj) : traj * list (list Z) := let t1 := gen_to_positions t in (t1, t_coords t1).',
+             '  Hypothesis HD : 0 < D.',
+             '  Theorem gen_fix_is_wrap : forall x, gen_fix x = wrapD D x.',
+             '  Proof. intros x. unfold gen_fix, wrapD. replace (1 * D) with D by lia. pose proof (Z.mod_pos_bound x D HD) as Hb.',
+             '    destruct (x mod D =? D) eqn:E; [apply Z.eqb_eq in E; lia | reflexivity]. Qed.',
+             '  Theorem gen_fix_in_cell : forall x, 0 <= gen_fix x < D.',
+             '  Proof. intros x. rewrite gen_fix_is_wrap. unfold wrapD. apply Z.mod_pos_bound. exact HD. Qed.',
+             '  Theorem gen_fix_congruent : forall x, exists k, gen_fix x = x - k * D.',
+             '  Proof. intros x. rewrite gen_fix_is_wrap. unfold wrapD. exists (x / D). pose proof (Z.div_mod x D). lia. Qed.',
+             '  Lemma map_gen_fix : forall l, map gen_fix l = vwrap D l.',
+             '  Proof. intros l. unfold vwrap. apply map_ext. exact gen_fix_is_wrap. Qed.',
+             '  Theorem gen_to_positions_is_model : forall t, gen_to_positions t = to_positions D t.',
+             '  Proof. intros t. unfold gen_to_positions, pmg_to_positions, to_positions.',
+             '    destruct t as [m c b]; destruct m; cbn [t_mode t_coords t_base]; f_equal; apply map_ext; exact map_gen_fix. Qed.',
+             '  Theorem gen_positions_is_model : forall s i, let t := nth i s dummy in',
+             '    step D s (QPos i) = (set_nth s i (fst (gen_positions t)), RVal (snd (gen_positions t))).',
+             '  Proof. intros s i t. unfold gen_positions. cbn [fst snd step]. subst t. rewrite gen_to_positions_is_model. reflexivity. Qed.',
+             'End G.']
+    open(os.path.join(GEN, 'TrajCore.v'), 'w').write('\n'.join(lines) + '\n')
+    ok, log = compile_gen('TrajCore.v')
+    return ('trajcore: Trajectory.to_positions (library call, np.mod, the ==1 repair, assignment), positions/displacements/cumulative_displacements properties, '
+            '__getitem__, __init__, filter built from positions, center_of_mass statements; no library method of the model is overridden; generated wrap proved '
+            'equal to Model.C01.wrapD, in [0, D), a whole-cell translate; generated to_positions proved equal to Model.C15.to_positions', ok, 'ok' if ok else log[-800:])
